@@ -120,6 +120,42 @@ class ModelClass:
         return hash(self.cls)
 
 
+REAL_DTYPES = {"float16", "float32", "float64", "float", "double", "bfloat16", "half"}
+INT_DTYPES = {"int8", "int16", "int32", "int64", "uint8", "long", "int", "short"}
+COMPLEX_DTYPES = {"complex64", "complex128", "cfloat", "cdouble"}
+
+
+def apply_dtype(v, dtype_name: str):
+    """The value after conversion to the torch dtype named `torch.<x>`: a real type drops the imaginary part (as torch does,
+    with a warning), an integer type truncates toward zero, bool gives a mask, a complex type widens."""
+    short = dtype_name.split(".")[-1]
+    if isinstance(v, PySeq) or isinstance(v, (str, dict, set)) or v is None:
+        raise Unfoldable("dtype conversion of a non-tensor")
+    if short in REAL_DTYPES:
+        def f(x):
+            if isinstance(x, complex):
+                return x.real
+            return float(x)
+
+        return _ew(f, v)
+    if short in INT_DTYPES:
+        def g(x):
+            if isinstance(x, bool):
+                return int(x)
+            if isinstance(x, int):
+                return x
+            if isinstance(x, float) and x == x and abs(x) != float("inf"):
+                return int(x)
+            raise Unfoldable("integer conversion of a non-finite or complex value")
+
+        return _ew(g, v)
+    if short in COMPLEX_DTYPES:
+        return _ew(lambda x: complex(x), v)
+    if short == "bool":
+        return _mask(_ew(lambda x: int(bool(x)), v)) if isinstance(v, list) else bool(v)
+    raise Unfoldable(f"conversion to {dtype_name}")
+
+
 class BuiltinRef:
     """A builtin handed around as a value (`label_of = int`)."""
 
@@ -1141,6 +1177,21 @@ class Folder:
                 return _anyc(v)
             if m in ("to", "float", "int", "long", "double", "type", "clone", "contiguous", "item", "detach", "cpu", "cuda"):
                 v = self.fold(node.func.value)
+                if not isinstance(v, PySeq) and isinstance(v, (list, int, float, complex)) and not isinstance(v, bool):
+                    # a conversion that names a dtype - literally or through a value (`x.to(input_dtype)`) - is applied
+                    dt_ = {"float": "torch.float32", "double": "torch.float64"}.get(m)
+                    if m in ("to", "type"):
+                        for a_ in list(node.args) + [k.value for k in node.keywords if k.arg in ("dtype", None)]:
+                            try:
+                                cand_ = self.fold(a_)
+                            except Unfoldable:
+                                if "dtype" in unparse(a_):
+                                    raise Unfoldable(f"conversion to an unknown dtype `{unparse(a_)[:40]}`")
+                                continue
+                            if isinstance(cand_, str) and cand_.startswith("torch.") and cand_.split(".")[-1] in (REAL_DTYPES | INT_DTYPES | COMPLEX_DTYPES | {"bool"}):
+                                dt_ = cand_
+                    if dt_ is not None and dt_.split(".")[-1] in (REAL_DTYPES | COMPLEX_DTYPES):
+                        return apply_dtype(v, dt_)
                 to_int = m in ("int", "long") or (m in ("to", "type") and any(unparse(a_).split(".")[-1] in ("long", "int", "int8", "int16", "int32", "int64", "uint8") for a_ in list(node.args) + [k.value for k in node.keywords]))
                 if to_int and not isinstance(v, PySeq):
                     # conversion to an integer type truncates toward zero
@@ -1933,7 +1984,15 @@ class Folder:
                     def _plain(z):
                         return [_plain(e) for e in z] if isinstance(z, list) else z
 
-                    return _plain(v_)
+                    v_ = _plain(v_)
+                dk_ = next((k.value for k in node.keywords if k.arg == "dtype"), None)
+                if dk_ is not None and short in ("tensor", "as_tensor", "array") and nm != short and isinstance(v_, (list, int, float, complex)) and not isinstance(v_, (bool, PySeq)):
+                    try:
+                        dn_ = self.fold(dk_)
+                    except Unfoldable:
+                        raise Unfoldable(f"tensor built with an unknown dtype `{unparse(dk_)[:40]}`")
+                    if isinstance(dn_, str) and dn_.startswith("torch.") and dn_.split(".")[-1] in (REAL_DTYPES | INT_DTYPES | COMPLEX_DTYPES):
+                        return apply_dtype(v_, dn_)
                 return v_
             if short in ("cos", "sin", "sqrt", "exp", "abs") and node.args:
                 f = {"cos": math.cos, "sin": math.sin, "sqrt": math.sqrt, "exp": lambda x: cmath.exp(x) if isinstance(x, complex) else math.exp(x), "abs": abs}[short]
